@@ -99,10 +99,15 @@ for case in cases:
             v = eval(op[2])
             ra, _ = attempt(lambda: setattr(A, op[1].replace('-', '_'), v))
             def ex():
-                try:
-                    B._set_attributes({op[1].replace('-', '_'): v})
-                except XE.XSDWrongAttribute:
+                # the explicit side: a plain update of the attribute dictionary under the schema name, after the declared type accepted the value
+                decl = [a for a in B.TYPE.get_xsd_attributes() if a.name == op[1]] if B.TYPE.get_xsd_tree().is_complex_type else []
+                if not decl:
                     raise AttributeError
+                if v is None:
+                    B._attributes = {k_: x for k_, x in B._attributes.items() if k_ != op[1]}
+                else:
+                    decl[0].type_(v)
+                    B._attributes = {**B._attributes, op[1]: v}
             rb, _ = attempt(ex)
         elif k == 'G':
             ra, va = attempt(lambda: getattr(A, op[1].replace('-', '_')))
